@@ -74,6 +74,8 @@ def cases(tier, seed):
             yield {"kind": "shared_modules", "share": share, "kernel": kern, "members": rnd.choice([[4, 6], [5, 3, 4]]), "seed": rnd.randrange(10**6)}
         for bb in ([2], [2, 3], [3, 2], [1, 2]):
             yield {"kind": "vnngp", "batch": bb, "seed": rnd.randrange(10**6)}
+        for strat, (pb_, db_, zb_) in itertools.product(["VariationalStrategy", "UnwhitenedVariationalStrategy"], [([], [2], "none"), ([2], [2], "none"), ([2], [2], "batch"), ([], [3, 2], "none")]):
+            yield {"kind": "svgp", "pbatch": pb_, "dbatch": db_, "zbatch": zb_, "strategy": strat, "dist": "CholeskyVariationalDistribution", "x_at_z": True, "seed": rnd.randrange(10**6)}
         for T_, strat in itertools.product([2, 3], ["VariationalStrategy", "UnwhitenedVariationalStrategy"]):
             yield {"kind": "indep_mt", "T": T_, "strategy": strat, "seed": rnd.randrange(10**6)}
         for pb, db in (([2], [2]), ([], [3]), ([3], [3]), ([2], [3, 2])):
@@ -371,6 +373,11 @@ def _svgp(case, ctx, g):
     M_, n = 4, 7
     Z = util.randn(g, *zb, M_, D)
     X, y = util.randn(g, *db, n, D), util.randn(g, *db, n)
+    if case.get("x_at_z"):
+        # the inputs ARE the inducing points (broadcast against the data batch): same element-wise answer as for any other input
+        n = M_
+        X, y = Z.expand(*torch.broadcast_shapes(torch.Size(zb), torch.Size(db)), M_, D).clone(), util.randn(g, *torch.broadcast_shapes(torch.Size(zb), torch.Size(db)), M_)
+        db = list(X.shape[:-2])
     m = _mk_svgp(pb, Z, case["strategy"], case["dist"])
     lik = gpytorch.likelihoods.GaussianLikelihood(batch_shape=torch.Size(pb))
     util.randomize(m, g, 0.4)
